@@ -333,27 +333,41 @@ type destModel struct {
 	opts   map[string]int // numeric options that are set
 	spool  string         // "", "true", "false"
 	pickle string
+	order  []int // permutation of the option positions
 }
 
 var numOpts = []string{"flush", "reconn", "connbuf", "iobuf", "spoolbuf", "spoolmaxbytesperfile", "spoolsyncevery", "spoolsyncperiod", "spoolsleep", "unspoolsleep"}
 var numDefaults = map[string]int{"flush": 1000, "reconn": 10000, "connbuf": 30000, "iobuf": 2000000, "spoolbuf": 10000, "spoolmaxbytesperfile": 200 * 1024 * 1024,
 	"spoolsyncevery": 10000, "spoolsyncperiod": 1000, "spoolsleep": 500, "unspoolsleep": 10}
 
+// render writes the option string; the options appear in the order drawn for this destination
+// (the documentation gives no order, so any order must mean the same)
 func (d destModel) render() string {
-	s := d.addr
+	var parts []string
 	if c := cmdFilter(d.filter); c != "" {
-		s += " " + c
+		parts = append(parts, strings.Fields(c)...)
 	}
 	for _, k := range numOpts {
 		if v, ok := d.opts[k]; ok {
-			s += fmt.Sprintf(" %s=%d", k, v)
+			parts = append(parts, fmt.Sprintf("%s=%d", k, v))
 		}
 	}
 	if d.spool != "" {
-		s += " spool=" + d.spool
+		parts = append(parts, "spool="+d.spool)
 	}
 	if d.pickle != "" {
-		s += " pickle=" + d.pickle
+		parts = append(parts, "pickle="+d.pickle)
+	}
+	s := d.addr
+	for _, i := range d.order {
+		if i < len(parts) {
+			s += " " + parts[i]
+		}
+	}
+	for i := range parts { // (options beyond the drawn permutation, if any)
+		if i >= len(d.order) {
+			s += " " + parts[i]
+		}
 	}
 	return s
 }
@@ -423,6 +437,11 @@ func TestPropCarbonRoute(t *testing.T) {
 			}
 			d.spool = rapid.SampledFrom([]string{"", "true", "false"}).Draw(t, "spool")
 			d.pickle = rapid.SampledFrom([]string{"", "true", "false"}).Draw(t, "pickle")
+			idx := make([]int, 18)
+			for i := range idx {
+				idx[i] = i
+			}
+			d.order = rapid.Permutation(idx).Draw(t, fmt.Sprintf("d%d.order", j))
 			ds = append(ds, d)
 		}
 		var sb strings.Builder
